@@ -57,7 +57,10 @@ def real_solve(script):
     eom.wallThicknessBounds = (0.1, 100.0)
     eom.wallOffsetBounds = (-10.0, 10.0)
     eom.thermo = SimpleNamespace(Tnucl=1.0)
-    eom.hydrodynamics = SimpleNamespace(findvwLTE=lambda: 0.5, vJ=script["vJ"], TMinLowT=0.5, TMaxLowT=2.0, TMinHighT=0.5, TMaxHighT=2.0)
+    eom.hydrodynamics = SimpleNamespace(findvwLTE=lambda: 0.5, vJ=script["vJ"], TMinLowT=0.5, TMaxLowT=2.0, TMinHighT=0.5, TMaxHighT=2.0,
+                                        vMin=script["vMin"], fastestDeflag=lambda: script.get("fastestDeflag", 1.0),
+                                        doesPhaseTraceLimitvmax=[False, False])
+    eom.nbrFields = 1
     calls = []
     r = C.rng("C01stub" + str(script["id"]))
 
@@ -111,7 +114,11 @@ def real_solve(script):
                 calls[-1]["flags"] = {"succTemp": script["flags"]["succTemp"], "succPress": script["flags"]["succPress"]}
             return out
         eom.wallPressure = inner_final
-        res = EOM.solveWall(eom, script["vMin"], script["vMax"], wpz)
+        if script.get("via_entry"):
+            # the public entry point assembles the window [vMin, min(vJ, fastestDeflag())] itself
+            res = EOM.findWallVelocityDeflagrationHybrid(eom, 5.0)
+        else:
+            res = EOM.solveWall(eom, script["vMin"], script["vMax"], wpz)
     finally:
         EM.scipy.optimize.root_scalar = orig
     return res, calls, seen, eom
@@ -126,12 +133,26 @@ def corr(rep: C.Report, tier: str):
         vMin = r.choice((1 / 64, 1 / 32, 1 / 16, 1 / 8))
         vMax = r.choice((0.5, 0.625, 0.75))
         vJ = r.choice((0.55, 0.7, 0.9))
-        kind = r.choice(("root", "root", "root", "runaway", "allpositive", "rootnearmin"))
+        kind = r.choice(("root", "root", "root", "runaway", "allpositive", "rootnearmin", "rootneartop"))
         vstar = r.uniform(vMin * 1.5, vMax * 0.98)
+        # a third of the scripts go through findWallVelocityDeflagrationHybrid: window = [hydro.vMin, min(vJ, fastestDeflag())]
+        via_entry = r.random() < 0.35 or kind == "rootneartop"
+        fd = 1.0
+        if via_entry:
+            if r.random() < 0.5:
+                vJ = vMax                      # Jouguet velocity limits the window
+                fd = r.choice((vMax, 0.95))
+            else:
+                fd = vMax                      # the tabulated range limits it
+                vJ = r.choice((0.8, 0.9))
         if kind == "runaway":
             press = lambda v, a=r.uniform(0.1, 2): -a * (1 + v)                      # noqa: E731
         elif kind == "allpositive":
             press = lambda v, a=r.uniform(0.1, 2): a * (1 + v)                       # noqa: E731
+        elif kind == "rootneartop":
+            # stopped only in the last fraction of the tolerance below the top of the window
+            vstar = vMax - 2.0 ** -10 * r.choice((0.25, 0.5, 0.75))
+            press = lambda v, a=r.uniform(0.5, 3), s=vstar: a * (v - s)              # noqa: E731
         elif kind == "rootnearmin":
             vstar = r.uniform(vMin * 2.2, vMin * 7)
             press = lambda v, a=r.uniform(0.5, 3), s=vstar: a * (v - s)              # noqa: E731
@@ -140,7 +161,7 @@ def corr(rep: C.Report, tier: str):
         flags = {"succTemp": r.random() < 0.8, "succPress": r.random() < 0.8, "tMinusIn": r.random() < 0.85, "tPlusIn": r.random() < 0.85,
                  "saturates": r.random() < 0.15}
         script = {"id": k, "vMin": vMin, "vMax": vMax, "vJ": vJ, "press": press, "flags": flags, "errTol": 2.0 ** -10,
-                  "brent_converged": r.random() < 0.9}
+                  "brent_converged": r.random() < 0.9, "via_entry": via_entry, "fastestDeflag": fd}
         res, calls, seen, eom = real_solve(script)
         typ = {ESolutionType.DEFLAGRATION: "deflagration", ESolutionType.DETONATION: "detonation", ESolutionType.RUNAWAY: "runaway",
                ESolutionType.ERROR: "error"}.get(res.solutionType, str(res.solutionType))
